@@ -8,7 +8,8 @@ From Coq Require Import List Arith Bool.
 Require Import TT.Model.Str TT.Model.C06Serde TT.Spec.C06SerdeRule.
 Require Import TT.Model.C06Print TT.Spec.TsLex TT.Spec.TsModule TT.Spec.C06Keys.
 Require Import TT.Proofs.C06Strings TT.Proofs.C06Proofs TT.Proofs.C06Main TT.Proofs.C06Print.
-Require Import TT.Proofs.LexFacts TT.Proofs.C06Lists TT.Proofs.C06File.
+Require Import TT.Proofs.C10ParseTy TT.Proofs.C10ParseEx.
+Require Import TT.Proofs.LexFacts TT.Proofs.C06Lists TT.Proofs.C06File TT.Proofs.C06C10.
 Import ListNotations.
 Local Open Scope list_scope.
 
@@ -141,6 +142,16 @@ Example C06_ex_files : Forall member_ok ex_members /\ Forall prop_ok ex_props /\
     L "export interface T0 {" ++ [LF] ++ L "  ""user-id""?: string;" ++ [LF] ++ L "  firstName: number;" ++ [LF] ++ L "  ""a\""b\\c"": string;" ++ [LF] ++ L "}".
 Proof. split; [exact ex_members_file|]. split; [exact ex_props_file|]. split; [exact (proj1 ex_files)|].
   split; [exact (proj2 (proj2 (proj2 ex_files)))|vm_compute; reflexivity]. Qed.
+
+(* the parsing premise (reads) holds for the canonical tokens of every normal-form type tree / Zod expression of
+   C10 (its round trips through the same specification parser): what remains a premise for such members is the lexing of the value text *)
+Theorem C06_reads_type : forall (m : member) (t : ty), nf t -> nest t < TYF -> reads ptype ";" (m, (pr t, t)).
+Proof. exact reads_type. Qed.
+Theorem C06_reads_expr : forall (m : member) (e : ex), nfx e -> enest e < 62 -> reads (p_expr 62) "," (m, (pe e, e)).
+Proof. exact reads_expr. Qed.
+Example C06_ex_reads_type : nf ex_ty /\ nest ex_ty < TYF /\
+  pr ex_ty = [KId (L "Record"); P "<"; KId (L "string"); P ","; KId (L "User"); P "["; P "]"; P ">"].
+Proof. split; [exact (proj1 ex_ty_ok)|]. split; [exact (proj2 ex_ty_ok)|reflexivity]. Qed.
 
 (* attributes other than rename and skip (skip_serializing_if = s, default, default = s, ...) change
    nothing: two containers that differ only in such attributes emit the same names, outside the classes *)
@@ -323,6 +334,8 @@ Print Assumptions C06_read_interface.
 Print Assumptions C06_read_alias.
 Print Assumptions C06_read_zobject.
 Print Assumptions C06_read_zenum.
+Print Assumptions C06_reads_type.
+Print Assumptions C06_reads_expr.
 Print Assumptions C06_other_attrs_inert.
 Print Assumptions C06_spec_ignores_others.
 Print Assumptions C06_field_rule.
